@@ -6,8 +6,10 @@ import (
 	"flag"
 	"fmt"
 	"os"
+	"os/exec"
 	"path/filepath"
 	"strings"
+	"sync"
 
 	"github.com/quay/claircore/verifharness/internal/extract"
 )
@@ -37,6 +39,38 @@ func main() {
 	if *out == "" {
 		fmt.Fprintln(os.Stderr, "-out is required")
 		os.Exit(2)
+	}
+	// All generators: one child process each (the generators share package-level
+	// caches that are not safe for concurrent use, and a probe that hangs or
+	// crashes must not take the others down), a few at a time. RX_SERIAL=1 runs
+	// them in this process, one after the other.
+	if *only == "" && os.Getenv("RX_SERIAL") != "1" {
+		if exe, err := os.Executable(); err == nil {
+			gens := extract.All()
+			outs := make([]string, len(gens))
+			sem := make(chan struct{}, 6)
+			var wg sync.WaitGroup
+			for i, g := range gens {
+				wg.Add(1)
+				go func(i int, name string) {
+					defer wg.Done()
+					sem <- struct{}{}
+					defer func() { <-sem }()
+					cmd := exec.Command(exe, "-repo", *repo, "-out", *out, "-only", name)
+					b, err := cmd.CombinedOutput()
+					outs[i] = string(b)
+					if !strings.Contains(outs[i], "EXTRACT-OK "+name) && !strings.Contains(outs[i], "EXTRACT-FAIL "+name) {
+						outs[i] += fmt.Sprintf("EXTRACT-FAIL %s: the generator process ended without an answer: %v\n", name, err)
+						os.Remove(filepath.Join(*out, name+".lean"))
+					}
+				}(i, g.Name)
+			}
+			wg.Wait()
+			for _, o := range outs {
+				fmt.Print(o)
+			}
+			return
+		}
 	}
 	failed := 0
 	for _, g := range extract.All() {
